@@ -1301,6 +1301,13 @@ class Interp:
             raise Unsupported("range longer than 64")
         return VVec([VInt(i) for i in range(a, b)]), env, pc
 
+    def e_array(self, e, env, pc):
+        items = []
+        for x in e["elems"]:
+            v, env, pc = self.eval(x, env, pc)
+            items.append(v)
+        return VVec(items), env, pc
+
     def e_vec_repeat(self, e, env, pc):
         el, env, pc = self.eval(e["elem"], env, pc)
         n, env, pc = self.eval(e["len"], env, pc)
@@ -1425,6 +1432,18 @@ def m_replace(I, s, args, pc, e):
     if cval(a.n) != 1 or cval(b.n) != 1:
         raise Unsupported("str::replace with patterns longer than one byte")
     return VStr(BStr([z3.If(c == a.b[0], b.b[0], c) for c in s.e.b], s.e.n))
+
+
+def _any_pat(pat, f):
+    """str patterns: a &str, a char, or an array/slice of chars (matches any of them)"""
+    if isinstance(pat, VVec):
+        n = cval(pat.n)
+        if n is None:
+            raise Unsupported("char-set pattern of symbolic length")
+        return z3.Or([f(as_bstr(c)) for c in pat.items[:n]] or [z3.BoolVal(False)])
+    if isinstance(pat, VClosure):
+        raise Unsupported("closure used as a str pattern")
+    return f(as_bstr(pat))
 
 
 def m_ident(I, s, args, pc, e):
@@ -1631,6 +1650,10 @@ def m_join(I, v, args, pc, e):
     return VStr(acc)
 
 
+def _alpha(c):
+    return z3.Or(z3.And(uge(c, b8(65)), ule(c, b8(90))), z3.And(uge(c, b8(97)), ule(c, b8(122))))
+
+
 def m_char_is_ascii_digit(I, c, args, pc, e):
     return VBool(bstr.is_digit(c.e))
 
@@ -1743,9 +1766,9 @@ METHODS = {
     ("VStr", "split_once"): m_split_once,
     ("VStr", "strip_prefix"): m_strip_prefix,
     ("VStr", "strip_suffix"): m_strip_suffix,
-    ("VStr", "starts_with"): lambda I, s, a, pc, e: VBool(bstr.prefixof(as_bstr(a[0]), s.e)),
-    ("VStr", "ends_with"): lambda I, s, a, pc, e: VBool(bstr.suffixof(as_bstr(a[0]), s.e)),
-    ("VStr", "contains"): lambda I, s, a, pc, e: VBool(bstr.contains(s.e, as_bstr(a[0]))),
+    ("VStr", "starts_with"): lambda I, s, a, pc, e: VBool(_any_pat(a[0], lambda p: bstr.prefixof(p, s.e))),
+    ("VStr", "ends_with"): lambda I, s, a, pc, e: VBool(_any_pat(a[0], lambda p: bstr.suffixof(p, s.e))),
+    ("VStr", "contains"): lambda I, s, a, pc, e: VBool(_any_pat(a[0], lambda p: bstr.contains(s.e, p))),
     ("VStr", "is_empty"): lambda I, s, a, pc, e: VBool(s.e.n == bv(0)),
     ("VStr", "rsplit"): m_rsplit,
     ("VStr", "rfind"): m_rfind,
@@ -1769,6 +1792,17 @@ METHODS = {
     ("VStr", "split_whitespace"): m_split_whitespace,
     ("VStr", "is_ascii"): lambda I, s, a, pc, e: VBool(bstr.all_bytes(s.e, lambda c: ult(c, b8(128)))),
     ("VChar", "is_ascii_digit"): m_char_is_ascii_digit,
+    ("VChar", "is_ascii_alphabetic"): lambda I, c, a, pc, e: VBool(_alpha(c.e)),
+    ("VChar", "is_ascii_alphanumeric"): lambda I, c, a, pc, e: VBool(z3.Or(_alpha(c.e), bstr.is_digit(c.e))),
+    ("VChar", "is_ascii_uppercase"): lambda I, c, a, pc, e: VBool(z3.And(uge(c.e, b8(65)), ule(c.e, b8(90)))),
+    ("VChar", "is_ascii_lowercase"): lambda I, c, a, pc, e: VBool(z3.And(uge(c.e, b8(97)), ule(c.e, b8(122)))),
+    ("VChar", "is_ascii_hexdigit"): lambda I, c, a, pc, e: VBool(z3.Or(bstr.is_digit(c.e), z3.And(uge(c.e, b8(97)), ule(c.e, b8(102))), z3.And(uge(c.e, b8(65)), ule(c.e, b8(70))))),
+    ("VChar", "is_ascii_whitespace"): lambda I, c, a, pc, e: VBool(z3.Or(c.e == b8(0x20), c.e == b8(0x09), c.e == b8(0x0a), c.e == b8(0x0c), c.e == b8(0x0d))),
+    ("VChar", "is_ascii"): lambda I, c, a, pc, e: VBool(ult(c.e, b8(128))),
+    ("VChar", "is_ascii_punctuation"): lambda I, c, a, pc, e: VBool(z3.And(uge(c.e, b8(0x21)), ule(c.e, b8(0x7e)), z3.Not(z3.Or(_alpha(c.e), bstr.is_digit(c.e))))),
+    ("VChar", "to_ascii_lowercase"): lambda I, c, a, pc, e: VChar(z3.If(z3.And(uge(c.e, b8(65)), ule(c.e, b8(90))), c.e + b8(32), c.e)),
+    ("VChar", "to_ascii_uppercase"): lambda I, c, a, pc, e: VChar(z3.If(z3.And(uge(c.e, b8(97)), ule(c.e, b8(122))), c.e - b8(32), c.e)),
+    ("VChar", "clone"): m_ident,
     ("VIter", "all"): m_all,
     ("VIter", "any"): m_any,
     ("VIter", "collect"): m_collect,
